@@ -309,7 +309,17 @@ def run(ctx, rep):
             shape = [p if k == "lit" else "{}" for k, p in parts]
             ok = shape == ["{}", "[", "{}", "]"] and parts[0][1].endswith(".name") and parts[2][1] == mi.params[1] and all(x.conversion == -1 and x.format_spec is None for x in v.values if isinstance(x, ast.FormattedValue))
         if ok:
-            rep.ok("C01.2", cons, "name[index] with str() of the index: tokenises as IDENTIFIER '[' INT|IDENTIFIER ']'", mi.loc())
+            # the index hole may hold a Constant or a Parameter: both must print their name
+            lacking = []
+            for vc in (CONSTANT, PARAMETER):
+                sm = ix.find_method(vc, "__str__")
+                good = sm is not None and any(isinstance(s_, ast.Return) and isinstance(s_.value, ast.Attribute) and s_.value.attr in ("name", "_name") for s_ in iter_stmts(sm.body))
+                if not good:
+                    lacking.append(ix.classes[vc].name)
+            if lacking:
+                rep.violation("C01.2", cons, f"the index hole of {ast.unparse(v)} is formatted with str(), but an index may be a {' or '.join(lacking)} object and {', '.join(lacking)} has no __str__ returning its name: `macro m k {{ foo r[k] }}` is printed as `foo r[Parameter('k', ParamType.NONE)]`", mi.loc(), witness="register r[2]\nmacro m k { foo r[k] }")
+            else:
+                rep.ok("C01.2", cons, "name[index] with str() of the index: tokenises as IDENTIFIER '[' INT|IDENTIFIER ']'", mi.loc())
         elif v is None or not isinstance(v, ast.JoinedStr):
             rep.undecided("C01.2", cons, "template not an f-string", mi.loc())
         else:
@@ -408,3 +418,60 @@ def run(ctx, rep):
                 rep.violation("C01.5", cons, f"{ix.classes[k].name}.{m} may hold a {' or '.join(missing)} object but is interpolated directly; {', '.join(missing)} has no __str__ returning its name, so its repr is printed (e.g. `subcircuit Parameter('n', ParamType.NONE) {{`)", loc, witness="macro m n { subcircuit n { g } }")
             else:
                 rep.ok("C01.5", cons, "every class the field may hold prints its name", loc)
+
+
+    # ------------------------------------------------------------ C01.6
+    rep.rule("C01.6", "a constant's value is printed only by the let statement; every other position prints names / stored fields untransformed", floor=3)
+    let_printers = set()
+    for f in tr.funcs:
+        env = T.final_env.get(f.qualname, {})
+        if any(CONSTANT in env.get(p_, ()) for p_ in f.all_params) and any(isinstance(n, ast.Constant) and isinstance(n.value, str) and n.value.startswith("let ") for n in walk_no_nested(f.node)):
+            let_printers.add(f.qualname)
+    if not let_printers:
+        rep.undecided("C01.6", "generator.generator:let-printer", "no function prints `let` statements")
+    for f in tr.funcs:
+        reads = []
+        for n in walk_no_nested(f.node):
+            if isinstance(n, ast.Attribute) and n.attr == "value" and isinstance(n.ctx, ast.Load):
+                reads.append(n)
+            if isinstance(n, ast.Call) and isinstance(n.func, ast.Name) and n.func.id == "getattr" and len(n.args) >= 2 and isinstance(n.args[1], ast.Constant) and n.args[1].value in ("value", "_value"):
+                reads.append(n)
+            if isinstance(n, ast.Call) and isinstance(n.func, ast.Attribute) and n.func.attr == "resolve_value":
+                reads.append(n)
+        cons = construct_of(f, "reads-constant-value")
+        if f.qualname in let_printers:
+            if reads:
+                rep.ok("C01.6", cons, "the let statement prints the constant's value", f.loc())
+            continue
+        if reads:
+            rep.violation("C01.6", cons, f"`{ast.unparse(reads[0])}` consults the value of a constant outside the let statement: the generated text depends on the value instead of the name, so the reference to the constant is lost or the statement changes when the value does (e.g. `let shots 1; subcircuit shots {{..}}`)", f"{f.path}:{reads[0].lineno}")
+    rep.ok("C01.6", "generator.generator:value-reads", f"{len(tr.funcs)} generator functions scanned for reads of a constant's value")
+    # stored fields reach the printer untransformed: the property the printer reads returns the field itself
+    for k, m in sorted(VALUE_POSITIONS):
+        kname = ix.classes[k].name
+        cons = f"{kname}.{m}:passthrough"
+        getter = ix.find_method(k, m)
+        if getter is None or not getter.is_property:
+            continue
+        flds = tr.member_fields(k, m) - {"*"}
+        seen_f = set()
+
+        def passthrough(fi, depth=0):
+            if fi is None or fi.qualname in seen_f or depth > 3:
+                return False
+            seen_f.add(fi.qualname)
+            s0 = fi.params[0]
+            for st in iter_stmts(fi.body):
+                if isinstance(st, ast.Return) and st.value is not None:
+                    v = st.value
+                    if isinstance(v, ast.Attribute) and isinstance(v.value, ast.Name) and v.value.id == s0 and v.attr in flds:
+                        return True
+                    if isinstance(v, ast.Call) and isinstance(v.func, ast.Attribute) and isinstance(v.func.value, ast.Name) and v.func.value.id == s0:
+                        if passthrough(ix.find_method(k, v.func.attr), depth + 1):
+                            return True
+            return False
+
+        if passthrough(getter):
+            rep.ok("C01.6", cons, "the property returns the stored field itself", getter.loc())
+        else:
+            rep.violation("C01.6", cons, f"{kname}.{m} no longer returns the stored field: a let-constant stored there is resolved to its value before the printer sees it, so `register q[n]` is printed as `register q[3]`", getter.loc())
